@@ -238,6 +238,8 @@ def run(ctx):
     for (pr, pn) in ((-1, 0), (2, 4)):
         for (r, n) in ((None, None), (2, 4), (3, 4), (2, 5), (-1, 4), (2, None), (2, 0), (4, 4)):
             cases.append((pr, pn, r, n))
+    # rank 0 is a rank like any other (only -1 means "not set")
+    cases += [(0, 4, 0, 4), (0, 4, 1, 4), (0, 4, 3, 4), (0, 4, None, None), (-1, 0, 0, 4)]
     for (pr, pn, r, n) in cases:
         def s_get(ex_, st, args, f, e, r=r, n=n):
             key = args[1][1] if args[1][0] == "str" else ""
@@ -316,6 +318,33 @@ def run(ctx):
         for (g, c, where, ok, detail) in ef.checked_sites:
             ctx.check(ok, "R15.4", "%s:propagate:%s->%s" % (fn.name, g, c), where,
                       "error of %s dropped in %s: %s" % (g, c, detail))
+    # every stream's metadata is merged, whether its process / loom is new or was created by an earlier stream
+    for (cname, finder, loader, extra) in (("create_proc", "loom_find_proc", "proc_load_metadata", {"proc_stream_get_pid": 7}),
+                                           ("create_loom", "find_loom", "loom_load_metadata", {})):
+        cf = prog.fn(cname, SYSC)
+        for exists in (0, 1):
+            loaded = []
+
+            def s_load(ex_, st, args, f, e, loaded=loaded):
+                loaded.append(tuple(args))
+                return [(INT(0), {})]
+            sums = {finder: lambda ex_, st, args, f, e, x=exists: [((PTR("OLD") if x else NULL), {})],
+                    loader: s_load, "malloc": lambda ex_, st, args, f, e: [(PTR("NEW"), {})],
+                    "loom_name": lambda ex_, st, args, f, e: [(("str", "loom.x"), {})]}
+            for k_, v_ in extra.items():
+                sums[k_] = lambda ex_, st, args, f, e, v_=v_: [(INT(v_), {})]
+            ex = absint.Explorer(prog, effects=eff, summaries=sums, loop_bound=3,
+                                 on_unknown_call=lambda cal, args, f, e: [INT(0)])
+            outs = ex.run(cf, [PTR("PARENT"), PTR("S")], {("PARENT", F("system", "looms")): NULL})
+            acc = [o for o in outs if o.kind == "ret" and o.ret is not None and o.ret[0] == "ptr"]
+            obj = PTR("OLD") if exists else PTR("NEW")
+            inst = "%s:%s:merges-this-stream" % (cname, "existing" if exists else "new")
+            good = bool(acc) and all(o.ret == obj for o in acc) and (obj, PTR("S")) in loaded
+            ctx.check(good, "R15.4", inst, cf.loc(),
+                      "%s returns %s for %s object and %s is called with %s: the attributes carried by this stream are "
+                      "not merged into the %s" % (cname, sorted({str(o.ret) for o in acc}),
+                                                  "an existing" if exists else "a new", loader, loaded or "nothing",
+                                                  "process" if "proc" in cname else "loom"))
     ct = prog.fn("create_thread", SYSC)
     for exists in (0, 1):
         ex = absint.Explorer(prog, effects=eff, summaries={
